@@ -244,6 +244,12 @@ def replay_construct(case):
     label = case.get('labelmsm', 1)
     checks = set(case.get('checks', ['total']))
     failed = []
+    hopts = case.get('history_opts') or []
+    for hi, h in enumerate(case.get('history', [])):    # messages parsed earlier in the same process
+        try:
+            RTCMMessage(payload=bytes.fromhex(h), labelmsm=hopts[hi] if hi < len(hopts) else label)
+        except Exception:  # noqa
+            pass
     try:
         m = RTCMMessage(payload=payload, labelmsm=label)
         exc = None
@@ -530,7 +536,68 @@ def replay_crcseq(case):
     return {"reproduced": bool(failed), "failed": failed, "detail": "; ".join(failed)[:500] or "ok"}
 
 
-REPLAYERS = {'crcseq': replay_crcseq, 'crc': replay_crc, 'construct': replay_construct, 'stream': replay_stream, 'socket': replay_stream, 'parse': replay_parse}
+def replay_labelopt(case):
+    from pyrtcm.rtcmmessage import RTCMMessage
+    payload = bytes.fromhex(case['payload'])
+    failed = []
+
+    def mk(o):
+        try:
+            if case.get('via_reader'):
+                frame = b"\xd3" + len(payload).to_bytes(2, "big") + payload
+                frame += crc24q_ref(frame).to_bytes(3, "big")
+                ev, end, _ = drive_reader(io.BytesIO(frame), 2, labelmsm=o)
+                ms = [e[2] for e in ev if e[0] == 'pair']
+                return ms[0] if len(ms) == 1 else None
+            return RTCMMessage(payload=payload, labelmsm=o)
+        except Exception as e:  # noqa
+            return e
+    base = mk(1) if not case.get('via_reader') else RTCMMessage(payload=payload, labelmsm=case['options'][0])
+    if case.get('via_reader'):
+        got = mk(case['options'][0])
+        if isinstance(base, Exception) != isinstance(got, Exception) or got is None:
+            failed.append("reader and direct construction disagree on the outcome")
+        elif not isinstance(base, Exception) and public_attrs(base) != public_attrs(got):
+            failed.append("reader result differs from RTCMMessage(payload, labelmsm=option)")
+        return {"reproduced": bool(failed), "failed": failed, "detail": "; ".join(failed) or "ok"}
+    identity, exp = expected_attrs(payload)
+    # parse in the given order first (history matters for a stateful decoder), then compare
+    results = [(o, mk(o)) for o in case['options']]
+    base = [m for o, m in results if o == 1 and o is not True][0] if any(o == 1 and o is not True for o, _ in results) else mk(1)
+    byopt = {}
+    for o, m in results:
+        key = 2 if o == 2 else 1
+        if not isinstance(m, Exception) and key in byopt and public_attrs(byopt[key]) != public_attrs(m):
+            failed.append(f"option {o!r}: the same payload decoded differently on a later parse with an equivalent option")
+        if not isinstance(m, Exception):
+            byopt.setdefault(key, m)
+    for o, m in results:
+        if isinstance(m, Exception) != isinstance(base, Exception):
+            failed.append(f"option {o!r}: outcome differs from option 1")
+            continue
+        if isinstance(m, Exception):
+            continue
+        a, b = public_attrs(base), public_attrs(m)
+        if list(a) != list(b):
+            failed.append(f"option {o!r}: attribute names differ")
+            continue
+        for k in a:
+            if o == 2 and k.startswith("CELLSIG_"):
+                continue
+            if a[k] != b[k] or type(a[k]) is not type(b[k]):
+                failed.append(f"option {o!r}: {k} = {b[k]!r}, with option 1 {a[k]!r}")
+                break
+        if isinstance(exp, dict):
+            # one signal ID -> one label under this option
+            seen = {}
+            for k, v in exp.items():
+                if isinstance(v, tuple) and v[0] == 'sig' and k in b:
+                    if seen.setdefault(v[1], b[k]) != b[k]:
+                        failed.append(f"option {o!r}: signal ID {v[1]} labelled both {seen[v[1]]!r} and {b[k]!r}")
+    return {"reproduced": bool(failed), "failed": failed, "detail": "; ".join(failed)[:500] or "ok"}
+
+
+REPLAYERS = {'labelopt': replay_labelopt, 'crcseq': replay_crcseq, 'crc': replay_crc, 'construct': replay_construct, 'stream': replay_stream, 'socket': replay_stream, 'parse': replay_parse}
 
 
 def replay(case):
